@@ -205,7 +205,18 @@ pub fn cmd_event(c: &Cmd, cas: u64, fr: &Frame) -> Value {
         "bl": fr.body_length})
 }
 
+/// As `run_history`, followed by a `final` event with the items left behind (key, value, flags, ttl; not the CAS).
+pub fn run_history_final(h: &History, out: &mut dyn Write, hist_no: usize, pair: usize, side: &str) -> usize {
+    let (n, state) = run_history_impl(h, out, false, hist_no);
+    writeln!(out, "{}", json!({"e": "final", "pair": pair, "side": side, "state": state})).unwrap();
+    n + 1
+}
+
 pub fn run_history(h: &History, out: &mut dyn Write, with_phys: bool, hist_no: usize) -> usize {
+    run_history_impl(h, out, with_phys, hist_no).0
+}
+
+fn run_history_impl(h: &History, out: &mut dyn Write, with_phys: bool, hist_no: usize) -> (usize, Value) {
     let mut sut = Sut::new(&h.cfg.policy, h.cfg.mem_limit, h.cfg.item_limit);
     let mut tokens = Tokens::default();
     let mut events = 0;
@@ -242,5 +253,11 @@ pub fn run_history(h: &History, out: &mut dyn Write, with_phys: bool, hist_no: u
         }
         events += 1;
     }
-    events
+    // live items at the end: what a client could still read (expired ones are not items any more)
+    let now = sut.timer.now.load(Ordering::SeqCst);
+    let mut snap = sut.mem.verif_snapshot();
+    snap.sort_by(|a, b| a.0.cmp(&b.0));
+    let state: Vec<Value> = snap.iter().filter(|(_, ts, _, _, ttl, _)| *ttl == 0 || ts + (*ttl as u64) > now)
+        .map(|(k, ts, _cas, f, ttl, v)| json!({"k": hex(k), "v": hex(v), "f": f.to_string(), "dl": if *ttl == 0 { 0 } else { ts + *ttl as u64 }})).collect();
+    (events, json!(state))
 }
